@@ -76,6 +76,11 @@ UndefErr(v, st, site) ==
   /\ \/ st.cfg.undef = "strict"
      \/ (st.cfg.undef = "falsy" /\ site \notin {"truthy", "eq"})
 
+\* RenderContext.extend: one more namespace on the scope chain, refused when the
+\* chain is already deeper than the limit (4 fixed maps + the template's own)
+ScopeSize(st) == 4 + Len(st.scopes)
+TooDeep(st) == ScopeSize(st) > st.cfg.depthlimit
+
 -----------------------------------------------------------------------------
 (* expressions *)
 RECURSIVE Eval(_, _), EvalPath(_, _, _, _), EvalFilters(_, _, _), EvalArgs(_, _, _), EvalSeq(_, _, _)
@@ -83,7 +88,9 @@ RECURSIVE Eval(_, _), EvalPath(_, _, _, _), EvalFilters(_, _, _), EvalArgs(_, _,
 \* string literals are template-author text: Markup under auto-escape
 Lit(s, st) == IF st.cfg.autoescape THEN Safe(s) ELSE Str(s)
 
-ApplyLambdaFilter(f, left, st) == Err("UNSPEC")
+\* filters that take an arrow function (filter_reference.md: "lambda expressions")
+LambdaFilters == {"map", "where", "reject", "find", "find_index", "has", "compact", "sort", "uniq", "sum"}
+PathBodyOnly == {"map", "compact", "sort", "uniq", "sum"}     \* their arrow function must be a path
 
 CmpRes(op, l, r, st) ==
   LET lt == LLt(l, r)
@@ -119,13 +126,15 @@ Eval(e, st) ==
     [] e.k = "false" -> Bool(FALSE)
     [] e.k = "empty" -> EmptyV
     [] e.k = "blank" -> BlankV
-    [] e.k = "int"   -> IntV(e.v)
+    [] e.k = "int"   -> IntV(e.n)
     [] e.k = "str"   -> Lit(e.v, st)
     [] e.k = "var"   ->
          LET v == EvalPath(e.segs, 2, Resolve(e.segs[1].v, st), st) IN
          \* "touch" is not a policy of the library: it is the most eager reading of
          \* "uses a variable that does not exist" (C16) - fail at the lookup itself
-         IF st.cfg.undef = "touch" /\ v.t = "undef" THEN Err("UndefinedError") ELSE v
+         IF st.cfg.undef = "touch" /\ v.t = "undef" THEN Err("UndefinedError")
+         ELSE IF ~IsErr(v) /\ Exotic(v) THEN Err("UNSPEC")
+         ELSE v
     [] e.k = "range" ->
          LET a == Eval(e.a, st)
              b == Eval(e.b, st) IN
@@ -208,6 +217,46 @@ EvalArgs(args, i, st) == EvalSeq(args, i, st)
 \* filters that do not turn their left value into text
 StructuralFilters == {"size", "first", "last", "default", "map", "where", "reverse", "concat", "compact", "uniq", "sum"}
 
+\* the arrow function applied to every item: its parameter(s) are a block scope of
+\* their own around each evaluation (LambdaExpression.map)
+LamVals(lam, seq, st) ==
+  [i \in DOMAIN seq |->
+     LET sc == IF Len(lam.params) = 1 THEN <<<<lam.params[1], seq[i]>>>>
+               ELSE <<<<lam.params[2], IntV(i - 1)>>, <<lam.params[1], seq[i]>>>>
+     IN Eval(lam.body, [st EXCEPT !.scopes = Append(@, sc)])]
+
+\* the items whose arrow-function result passes Test
+Pick(seq, vals, Test(_)) ==
+  LET sel == SelectSeq([i \in DOMAIN seq |-> [it |-> seq[i], r |-> vals[i]]], LAMBDA p : Test(p.r))
+  IN [j \in DOMAIN sel |-> sel[j].it]
+
+RECURSIVE FirstTruthy(_, _)
+FirstTruthy(vals, i) == IF i > Len(vals) THEN 0 ELSE IF Truthy(vals[i]) THEN i ELSE FirstTruthy(vals, i + 1)
+
+ApplyLambda(name, lam, left, st) ==
+  LET seq  == SeqOf(left)
+      vals == LamVals(lam, seq, st)
+      idx  == FirstTruthy(vals, 1) IN
+  IF name \in PathBodyOnly /\ lam.body.k # "var" THEN Err("UNSPEC")     \* rejected when the template is parsed
+  ELSE IF TooDeep(st) THEN Err("ContextDepthError")
+  ELSE IF \E i \in DOMAIN vals : IsErr(vals[i])
+       THEN \* find / find_index / has stop at the first match: later items are not evaluated
+            (IF name \in {"find", "find_index", "has"} /\ idx # 0 /\ \A i \in 1..idx : ~IsErr(vals[i])
+             THEN (CASE name = "find" -> seq[idx] [] name = "find_index" -> IntV(idx - 1) [] name = "has" -> Bool(TRUE))
+             ELSE vals[CHOOSE i \in DOMAIN vals : IsErr(vals[i]) /\ \A j \in 1..(i - 1) : ~IsErr(vals[j])])
+  ELSE CASE name = "map" -> Arr([i \in DOMAIN vals |-> IF vals[i].t = "undef" THEN Nil ELSE vals[i]])
+         [] name = "where"  -> Arr(Pick(seq, vals, LAMBDA r : Truthy(r)))
+         [] name = "reject" -> Arr(Pick(seq, vals, LAMBDA r : ~Truthy(r)))
+         [] name = "compact" -> Arr(Pick(seq, vals, LAMBDA r : r.t \notin {"nil", "undef"}))
+         [] name = "find" -> IF idx = 0 THEN Nil ELSE seq[idx]
+         [] name = "find_index" -> IF idx = 0 THEN Nil ELSE IntV(idx - 1)
+         [] name = "has" -> Bool(idx # 0)
+         [] name = "sort" -> IF AllScalars(vals) /\ Homogeneous(vals) THEN Arr(SortByKeys(seq, vals)) ELSE Err("UNSPEC")
+         [] name = "uniq" -> IF \A i \in DOMAIN vals : vals[i].t = "str" \/ (vals[i].t = "int" /\ vals[i].v \notin {0, 1})
+                             THEN Arr(UniqBy(seq, vals, 1, <<>>)) ELSE Err("UNSPEC")
+         [] name = "sum" -> IF \A i \in DOMAIN vals : vals[i].t \in {"int", "nil", "undef"}
+                            THEN IntV(SumInts(SelectSeq(vals, LAMBDA v : v.t = "int"))) ELSE Err("UNSPEC")
+
 \* filters whose left value may be an undefined without complaint under strict
 DefaultLike == {"default"}
 
@@ -215,7 +264,11 @@ EvalFilters(fs, left, st) ==
   IF fs = <<>> THEN left
   ELSE LET f == fs[1] IN
        IF f.n \notin Known THEN Err("UNSPEC")            \* filter not (yet) in the reference
-       ELSE IF \E j \in DOMAIN f.args : f.args[j].k = "lambda" THEN Err("UNSPEC")
+       ELSE IF \E j \in DOMAIN f.args : f.args[j].k = "lambda" THEN
+            (IF f.n \notin LambdaFilters \/ Len(f.args) # 1 \/ ("kw" \in DOMAIN f /\ f.kw # <<>>) THEN Err("UNSPEC")
+             ELSE IF UndefErr(left, st, "filter") THEN Err("UndefinedError")
+             ELSE LET r == ApplyLambda(f.n, f.args[1], left, st) IN
+                  IF IsErr(r) THEN r ELSE EvalFilters(Tail(fs), r, st))
        ELSE IF "kw" \in DOMAIN f /\ f.kw # <<>> THEN Err("UNSPEC")
        ELSE LET args == EvalArgs(f.args, 1, st) IN
             IF IsErr(args) THEN args
@@ -261,10 +314,7 @@ IsBlankNode(n) ==
 (* statements *)
 Fail(st, cls) == [st EXCEPT !.err = cls]
 
-\* RenderContext.extend: one more namespace on the scope chain, refused when the
-\* chain is already deeper than the limit (4 fixed maps + the template's own)
-ScopeSize(st) == 4 + Len(st.scopes)
-TooDeep(st) == ScopeSize(st) > st.cfg.depthlimit
+
 Write(st, s)  == [st EXCEPT !.out = @ \o s]
 
 \* text written for a value at an output site
@@ -361,6 +411,7 @@ ExecNode(n, st) ==
          LET itv == Eval(n.it, st) IN
          IF IsErr(itv) THEN Fail(st, itv.cls)
          ELSE IF UndefErr(itv, st, "iter") THEN Fail(st, "UndefinedError")
+         ELSE IF itv.t = "str" THEN Fail(st, "UNSPEC")        \* iterating a string: UNSPECIFIED.md
          ELSE LET all == IterSeq(itv) IN
          IF ~all.ok THEN Fail(st, "LiquidTypeError")
          ELSE LET lim == IF n.limit.has THEN Eval(n.limit.e, st) ELSE Nil
